@@ -21,12 +21,12 @@ AF_INET = socket.AF_INET
 AF_INET6 = socket.AF_INET6
 EAGAIN = 11
 
-SNAP_FMT = "<8BqiIHH16s4HiibbiiibbiiiBH"
+SNAP_FMT = "<8BqiIHH16s4HiibbiiibbiiiBHI"
 SNAP_SIZE = struct.calcsize(SNAP_FMT)
 SNAP_FIELDS = ("active authenticated authenticated_raw options_locked disabled lazy conn downenc "
                "last_pkt seed tun_ip host_family host_port host_addr q_id q_id2 qs_id qs_id2 "
                "in_len in_offset in_seq in_frag out_len out_offset out_sentlen out_seq out_frag "
-               "outfragresent fragsize outpacketq_filled encbits inv").split()
+               "outfragresent fragsize outpacketq_filled encbits inv heap_kb").split()
 
 WATCHDOG_S = float(os.environ.get("VERIF_WATCHDOG", "20"))
 SPIN_LIMIT = int(os.environ.get("VERIF_SPIN_LIMIT", "100000"))
